@@ -40,6 +40,12 @@ HISTORY = {
     "C15-1": ("missed", "C15 imeta-tables/entry-split-at-first-space"),
     "C15-2": ("missed", "C15 welcome-bound/refuses/every-encoding-tag"),
     "C19-1": ("caught", ""),
+    "C11-1": ("caught by C20 only", "C11 queue-storage-agreement (every removal from the queue is released / consumed in storage)"),
+    "C11-2": ("caught by C01/C07 only; C11 lost its known finding silently", "C11 hydration-coverage/<field>/source (a hydrated field is parsed from the name, never the row's creation time)"),
+    "C12-1": ("caught", ""),
+    "C12-2": ("caught", ""),
+    "C17-1": ("caught", ""),
+    "C17-2": ("missed", "C17 aead-siblings/binding-agreement (+ reference-field on the decrypt side)"),
     "C19-2": ("caught by C09/C12 only", "C19 one-critical-section: only the group-existence pre-check is exempt on SQLite"),
 }
 rows = ["| id | change (needs) | first | now caught by | strengthened |", "|----|----------------|-------|---------------|--------------|"]
